@@ -274,7 +274,11 @@ Http::One::RequestParser::parseRequestFirstLine()
     // Now, the request line has to end at the first LF.
     static const CharacterSet lineChars = CharacterSet::LF.complement("notLF");
     Tokenizer lineTok(buf_);
-    if (!lineTok.prefix(line, lineChars) || !lineTok.skip('\n')) {
+    // A complete line of maxRequestHeaderSize or more bytes is treated like an
+    // incomplete one of that size: whether its LF has been received already
+    // must not change the verdict.
+    if (!lineTok.prefix(line, lineChars) || !lineTok.skip('\n') ||
+            line.length() >= Config.maxRequestHeaderSize) {
         if (buf_.length() >= Config.maxRequestHeaderSize) {
             /* who should we blame for our failure to parse this line? */
 
